@@ -25,6 +25,8 @@ def model_attrs(ck):
 # ------------------------------------------------------------------------------------------------
 FOREIGN = [("doc", '#[doc = "d%d"]'), ("doc", "/// c%d\n"), ("allow", "#[allow(dead_code, unused%d)]"), ("cfg_attr", "#[cfg_attr(all(), allow(unused%d))]"),
            ("serde", "#[serde(rename = \"r%d\")]"), ("path_attr", "#[my::tool(%d)]"), ("deny", "#[deny(unused%d)]"), ("must_use", "#[must_use = \"m%d\"]")]
+FOREIGN += [("path_debug", "#[my::debug(%d)]"), ("path_default", "#[serde::default = %d]"), ("path_derive_ex", "#[x::derive_ex(Clone, %d)]"),
+            ("path_ord", "#[::tools::ord(%d)]"), ("path_hash", "#[a::b::hash(%d)]")]
 TYPE_FOREIGN = FOREIGN + [("repr", "#[repr(C, align(%d))]"), ("non_exhaustive", "#[non_exhaustive]%.0s")]
 
 
@@ -273,10 +275,9 @@ def impl_of(resp, entry, t):
     if entry == "attr":
         items = items[1:]
     out = []
-    path = bf.trait_path(t)
     take_const = False
     for i in items:
-        if i["kind"] == "impl" and i["trait"] == path:
+        if i["kind"] == "impl" and i["trait"].split("::")[-1] == t:
             out.append(i["hash"])
             take_const = t == "Eq"
         elif i["kind"] == "const" and take_const:
@@ -319,11 +320,31 @@ def c15(tier):
             plan.append(("split", a, s1, None))
             s2 = add("derive", "", "#[derive_ex(%s)] #[derive_ex(%s)] %s" % (", ".join(D[:k]), ", ".join(D[k:]), item))
             plan.append(("split", d, s2, None))
+            # other attributes between the lists must not matter
+            between = rnd.choice(['#[doc = "between"]', "#[allow(dead_code)]", "/// text\n"])
+            s3 = add("derive", "", "#[derive_ex(%s)] %s #[derive_ex(%s)] %s" % (", ".join(D[:k]), between, ", ".join(D[k:]), item))
+            plan.append(("split3", d, s3, between))
+            s4 = add("attr", ", ".join(D[:1]), "%s #[derive_ex(%s)] %s #[derive_ex(%s)] %s" % (between, ", ".join(D[1:k]) or D[0], between, ", ".join(D[k:]), item)) if k >= 2 else None
+            if s4 is not None:
+                plan.append(("split3", a, s4, between))
         # co-derived: same trait t under another derived set
         t = rnd.choice(D)
         D2 = rnd.choice([x for x in allD if t in x and set(x) != set(D)])
         b = add("derive", "", "#[derive_ex(%s)] %s" % (", ".join(D2), item))
         plan.append(("coderived", d, b, (t, P)))
+    # non-comparison traits: the impl of one trait under two different co-derived sets (items without helper attributes)
+    plain_items = ["struct X<T>(T, u8);", "struct X { a: u8, b: String }", "enum X<T> { A, #[default] B(T), C { x: u8 } }", "struct X;", "enum X { #[default] A, B }"]
+    others = ["Clone", "Copy", "Debug", "Default", "PartialEq", "Hash"]
+    for it in plain_items:
+        for t in others:
+            for extra in ([], ["Copy"], ["Clone"], ["Debug", "Default"], ["PartialEq", "Eq", "Hash"], ["Clone", "Copy", "Debug"]):
+                if t in extra:
+                    continue
+                D1, D2 = [t], [t] + extra
+                rnd.shuffle(D2)
+                x = add("derive", "", "#[derive_ex(%s)] %s" % (", ".join(D1), it))
+                y = add("derive", "", "#[derive_ex(%s)] %s" % (", ".join(D2), it))
+                plan.append(("coderived_plain", x, y, t))
     # items with bound(...) arguments at all nine levels, debug / default helpers (entry relation, both directions)
     bitems = checks_bnd.c04_items("quick", rnd)
     for P in rnd.sample(bitems, min(len(bitems), 3000 if tier == "quick" else 30000)):
@@ -334,8 +355,11 @@ def c15(tier):
     resps = dx.expand(reqs)
     events = []
     for rel, x, y, extra in plan:
-        if rel in ("entry", "split"):
-            events.append({"ev": "equiv", "rel": rel, "equal": gen_hashes(resps[x], reqs[x]["entry"]) == gen_hashes(resps[y], reqs[y]["entry"])})
+        if rel in ("entry", "split", "split3"):
+            events.append({"ev": "equiv", "rel": "split" if rel == "split3" else rel, "equal": gen_hashes(resps[x], reqs[x]["entry"]) == gen_hashes(resps[y], reqs[y]["entry"])})
+        elif rel == "coderived_plain":
+            t = extra
+            events.append({"ev": "equiv", "rel": "entry", "equal": impl_of(resps[x], "derive", t) == impl_of(resps[y], "derive", t) and len(impl_of(resps[x], "derive", t)) > 0})
         elif rel == "order":
             seq = trait_seq(resps[x], "attr")
             listed = [t for t in extra]
@@ -352,6 +376,8 @@ def c15(tier):
     for i in bad:
         rel, x, y, extra = plan[i]
         sig = {"kind": rel}
+        if rel == "coderived_plain":
+            sig["t"] = extra
         if rel == "coderived":
             sig["t"] = extra[0]
             sig["D1"] = reqs[x]["item"][:reqs[x]["item"].index("]")]
@@ -375,13 +401,12 @@ def entry_groups(resp, entry, traits):
         items = items[1:]
     groups, pos = [], 0
     for t in traits:
-        path = bf.trait_path(t)
         g = []
         if pos < len(items) and items[pos]["kind"] == "compile_error":
             g = [items[pos]]
             pos += 1
         else:
-            while pos < len(items) and items[pos]["kind"] == "impl" and items[pos]["trait"] == path:
+            while pos < len(items) and items[pos]["kind"] == "impl" and items[pos]["trait"].split("::")[-1] == t:
                 g.append(items[pos])
                 pos += 1
             while g and pos < len(items) and items[pos]["kind"] == "const":
@@ -401,7 +426,8 @@ def c19(tier):
     # items: simple structs / enums with and without generics, helpers, failing entries
     srcs = [("struct", "struct X<T>(T, u8);"), ("struct", "struct X { a: u8, #[debug(ignore)] b: String }"), ("struct", "struct X(u8);"),
             ("enum", "enum X<T> { A, #[default] B(T), C { #[ord(key = $.len())] x: String } }"), ("struct", "struct X;"),
-            ("struct", "struct X<T: Clone> where T: Copy { #[ord(reverse)] a: T, #[eq(ignore)] #[debug(transparent)] b: u8 }")]
+            ("struct", "struct X<T: Clone> where T: Copy { #[ord(reverse)] a: T, #[eq(ignore)] #[debug(transparent)] b: u8 }"),
+            ("struct", "struct X { #[default(\"a  b\")] a: String, #[default(*b\"x\\ty   z\")] b: [u8; 7], #[ord(key = $.len() + \"p   q\".len())] c: String }")]
     N = 1500 if tier == "quick" else 15000
     cases = []
     for n in range(N):
@@ -413,13 +439,21 @@ def c19(tier):
         cut = rnd.randrange(1, k) if nl == 2 else k
         lists = []
         for part in ([traits[:cut], traits[cut:]] if nl == 2 else [traits]):
-            lists.append({"traits": [{"t": t, "dump": rnd.random() < 0.35} for t in part], "dump": rnd.random() < 0.25})
+            lists.append({"traits": [{"t": t, "dump": rnd.random() < 0.35, "b": rnd.choice(["", "", "", "bound()", "bound(..)", "bound(u8: Copy)", "bound(u8: Copy, ..)"])} for t in part],
+                          "dump": rnd.random() < 0.25})
         cases.append((kind, src, lists))
 
     def render(lists, with_dump):
         parts = []
         for L in lists:
-            xs = [("%s(dump)" % x["t"]) if (with_dump and x["dump"]) else x["t"] for x in L["traits"]]
+            xs = []
+            for x in L["traits"]:
+                args = []
+                if x.get("b"):
+                    args.append(x["b"])
+                if with_dump and x["dump"]:
+                    args.append("dump")
+                xs.append("%s(%s)" % (x["t"], ", ".join(args)) if args else x["t"])
             if with_dump and L["dump"]:
                 xs.append("dump")
             parts.append(", ".join(xs))
@@ -571,13 +605,20 @@ def c16(tier):
     for c in corpus:      # the unmutated seeds as well
         ereq.append({"k": "expand", "id": len(ereq), "entry": "attr", "attr": c["attr"], "item": c["item"], "twice": True})
         ereq.append({"k": "expand", "id": len(ereq), "entry": "derive", "attr": "", "item": "#[derive_ex(%s)] %s" % (c["attr"], c["item"]), "twice": True})
-    resps = dx.expand(ereq)
+    # history independence: a sample of the requests is repeated at the END of the same run of the observer (same process,
+    # other worker threads, after tens of thousands of other expansions) - the output must be the same
+    nrep = min(len(ereq), 8000)
+    rep_idx = random.Random(dx.seed() + 9).sample(range(len(ereq)), nrep)
+    resps_all = dx.expand(ereq + [ereq[i] for i in rep_idx])
+    resps = resps_all[:len(ereq)]
+    later = {i: resps_all[len(ereq) + k] for k, i in enumerate(rep_idx)}
     events, idx = [], []
     for i, r in enumerate(resps):
         if r.get("class") == "unlexable":
             continue              # not a token stream: outside the property's quantifier
         has_msg = all(bool(x.get("msg")) for x in r.get("items", []) if x["kind"] == "compile_error")
-        events.append({"ev": "total", "class": r.get("class"), "det": bool(r.get("det", False)), "has_message": has_msg})
+        det = bool(r.get("det", False)) and (i not in later or later[i].get("out_hash") == r.get("out_hash"))
+        events.append({"ev": "total", "class": r.get("class"), "det": det, "has_message": has_msg})
         idx.append(i)
     # inputs inside the descriptor language: the full prediction (whole-derivation vs per-entry failure) applies as well
     oev, ometa = own_events(ck, tier, rnd)
@@ -629,7 +670,7 @@ def own_case(rnd):
         traits = [t for t in traits if t in ENUM_TRAITS or t == "Foo"] or ["Clone"]
     syntax_ok = rnd.random() > 0.07
     nfields = rnd.choice([0, 1, 1, 2, 3])
-    nvariants = rnd.choice([1, 2, 3]) if kind == "enum" else 1
+    nvariants = rnd.choice([0, 1, 1, 2, 3]) if kind == "enum" else 1
     nmarked = rnd.choice([0, 1, 1, 2]) if kind == "enum" else 0
     nmarked = min(nmarked, nvariants)
     ntransp = rnd.choice([0, 0, 1, 2]) if nfields >= 2 else rnd.choice([0, 1]) if nfields == 1 else 0
@@ -648,7 +689,14 @@ def own_case(rnd):
             anomalies.append({"h": h, "what": what, "at": at})
     P = {"kind": kind, "syntax_ok": syntax_ok, "traits": traits, "nfields": nfields, "anomalies": anomalies, "ntransp": ntransp,
          "nmarked": nmarked, "nvariants": nvariants}
-    # --- source
+    args, item = own_source(P, rnd)
+    return P, args, item
+
+
+def own_source(P, rnd):
+    """Rust source for an abstract pipeline descriptor (DxExpand / MC_Expand).  May normalise P (empty enum)."""
+    kind, traits, syntax_ok, anomalies = P["kind"], P["traits"], P["syntax_ok"], P["anomalies"]
+    nfields, ntransp, nvariants, nmarked = P["nfields"], P["ntransp"], P["nvariants"], P["nmarked"]
     def anomaly_src(a):
         h = a["h"]
         if h == "derive_ex":
@@ -673,6 +721,11 @@ def own_case(rnd):
         item = "%sstruct X %s" % (at["type"], fields(nfields, ntransp, at["field"]))
     elif kind == "enum":
         vs = []
+        if nvariants == 0:
+            nfields, ntransp = 0, 0
+            P["nfields"], P["ntransp"] = 0, 0
+            anomalies[:] = [a for a in anomalies if a["at"] == "type"]
+            at["variant"], at["field"] = "", ""
         for vi in range(nvariants):
             mark = "#[default] " if vi < nmarked else ""
             va = at["variant"] if vi == 0 else ""
@@ -685,10 +738,14 @@ def own_case(rnd):
         item = "union X { a: u8, b: u16 }"
     else:
         item = rnd.choice(["fn x() {}", "trait X {}", "mod x {}", "type X = u8;", "static X: u8 = 0;"])
-    args = (", " if syntax_ok else " ").join(traits) if (syntax_ok or len(traits) > 1) else traits[0] + " +"
-    if not syntax_ok and len(traits) > 1:
-        args = " ".join(traits)
-    return P, args, item
+    dump = P.get("dump", "none")
+    names = list(traits)
+    if dump == "first":
+        names[0] = names[0] + "(dump)"
+    if dump == "all":
+        names.append("dump")
+    args = (", " if syntax_ok else " ").join(names) if (syntax_ok or len(names) > 1) else names[0] + " +"
+    return args, item
 
 
 def own_impl_events(tier, rnd):
@@ -752,14 +809,63 @@ def own_events(ck, tier, rnd):
             r = resps[ri]
             q = reqs[ri]
             ri += 1
-            items = r.get("items", [])
-            present = entry == "derive" or (bool(items) and items[0]["kind"] != "compile_error")
-            gen = items[1:] if entry == "attr" and present else items
-            nerr = sum(1 for x in gen if x["kind"] == "compile_error")
-            nimpl = sum(1 for x in gen if x["kind"] == "impl")
-            groups, ok = entry_groups(r, entry if present else "derive", P["traits"])
-            classes = [("error" if (g and g[0]["kind"] == "compile_error") else "impl" if g else "missing") for g in groups] if ok else ["unparsed"]
-            events.append({"ev": "own", "P": P, "entry": entry, "nimpl": nimpl, "nerr": nerr, "classes": classes, "item_present": bool(present),
-                           "class": r.get("class")})
+            events.append(own_event(P, entry, r))
             meta.append(q)
-    return events, meta
+    pe, pm = pipe_events(ck, tier, rnd)
+    return events + pe, meta + pm
+
+
+def own_event(P, entry, r):
+    items = r.get("items", [])
+    present = entry == "derive" or (bool(items) and items[0]["kind"] != "compile_error")
+    gen = items[1:] if entry == "attr" and present else items
+    nerr = sum(1 for x in gen if x["kind"] == "compile_error")
+    nimpl = sum(1 for x in gen if x["kind"] == "impl")
+    groups, ok = entry_groups(r, entry if present else "derive", P["traits"])
+
+    def cls(g):
+        if not g:
+            return "missing"
+        if g[0]["kind"] == "compile_error":
+            return "dump" if (g[0].get("msg") or "").startswith("dump:") else "error"
+        return "impl"
+    classes = [cls(g) for g in groups] if ok else ["unparsed"]
+    return {"ev": "own", "P": P, "entry": entry, "nimpl": nimpl, "nerr": nerr, "classes": classes, "item_present": bool(present),
+            "class": r.get("class")}
+
+
+def pipe_events(ck, tier, rnd):
+    """every terminal state of the MC_Expand pipeline machine, replayed into the real expander"""
+    cfg = "MC_Expand.cfg" if tier == "quick" else "MC_Expand_large.cfg"
+    st, outp = dx.tlc_run("MC_Expand", cfg, "mc_expand_" + ("small" if tier == "quick" else "large"), workers=8, timeout=7200)
+    if not st["ok"]:
+        ck.violation({"kind": "model", "module": "MC_Expand", "invariants": st["violated"]}, {"tlc_output": outp, "tail": open(outp).read()[-2000:]})
+        return [], []
+    ck.add_model(st)
+    vecs = dx.parse_prints(open(outp).read(), "PIPE")
+    ck.notes["pipeline_model"] = {"module": "MC_Expand", "cfg": cfg, "states": st.get("distinct"), "terminal_states": len(vecs), "cached": st.get("cached")}
+    if not vecs:
+        raise dx.ToolError("MC_Expand printed no PIPE vector")
+    cap = 60000 if tier == "quick" else 400000
+    if len(vecs) > cap:
+        vecs = rnd.sample(vecs, cap)
+    reqs, cases = [], []
+    for v in vecs:
+        P = dict(v["P"])
+        P["traits"], P["anomalies"] = list(P["traits"]), list(P["anomalies"])
+        args, item = own_source(P, rnd)
+        if v["entry"] == "attr":
+            reqs.append({"k": "expand", "id": len(reqs), "entry": "attr", "attr": args, "item": item})
+        else:
+            reqs.append({"k": "expand", "id": len(reqs), "entry": "derive", "attr": "", "item": "#[derive_ex(%s)] %s" % (args, item)})
+        cases.append((P, v))
+    resps = dx.expand(reqs)
+    events = []
+    for (P, v), r in zip(cases, resps):
+        e = own_event(P, v["entry"], r)
+        # the machine's own terminal state must agree with what the judge will derive from P (checked by TLC: MechIsDoc);
+        # carried along so that a replay shows both
+        e["mech"] = {"err": v["err"], "out": list(v["out"])}
+        events.append(e)
+    ck.notes["pipeline_replayed"] = len(events)
+    return events, reqs
